@@ -350,6 +350,9 @@ class BitfieldEngine(object):
                 val = 1 << width            # too large
             elif width is not None:
                 val = t.draw(1 << min(width, 40))
+                if t.draw(4) == 0:
+                    # extremes: all ones, top bit only, zero
+                    val = [(1 << width) - 1, 1 << (width - 1), 0][t.draw(3)]
             else:
                 val = [0, 1, 2, 3, 7, 200, 300, 1000, (1 << 33) + 5][t.draw(9)]
             if t.draw(30) == 0:
